@@ -148,7 +148,7 @@ theorem rmdir_only_orphans_or_close (cfg0 : Config) (hist : List (Op × Oracle))
     by_cases hcl : (runOps (init cfg0) hist).closed = true
     · simp [plan, hcl] at hsplit
     · have hs := closePlan_safe (runOps (init cfg0) hist) orc order
-      simp only [plan, hcl] at hsplit
+      simp only [plan, hcl, Bool.false_eq_true, if_false] at hsplit
       rw [hsplit] at hs
       rcases allSteps_split hs with h | ⟨_, h⟩
       · exact Or.inl h
@@ -159,4 +159,332 @@ theorem rmdir_only_orphans_or_close (cfg0 : Config) (hist : List (Op × Oracle))
     · exact Or.inl h
     · cases h
 
+/-- The outcomes C08 allows for a `Prepare` whose labels name the target `target`. -/
+def PrepareOutcome (s s' : State) (r : Res) (key target : String) (labels : Labels) : Prop :=
+  -- AlreadyExists and the target is a committed snapshot; if this call created it, it carries the
+  -- caller's labels plus the remote label, has exactly one live backend mount on its (existing)
+  -- directory, and the active key has been consumed
+  (r = .err .exists ∧ ∃ t, findKey s'.snaps target = some t ∧ t.kind = .committed ∧
+      (hasKey s.snaps target = false →
+        t.labels = lset labels remoteLabel remoteVal ∧ isRemote t.labels = true ∧
+        s'.mounts.count t.id = 1 ∧ Dir.id t.id ∈ s'.dirs ∧ hasKey s'.snaps key = false)) ∨
+  -- AlreadyExists of the key itself (createSnapshot): nothing changed
+  (r = .err .exists ∧ hasKey s.snaps key = true ∧ s'.snaps = s.snaps) ∨
+  -- fallback: an ordinary active snapshot with exactly the caller's labels, no backend mount,
+  -- nothing newly committed
+  (∃ m, r = .mounts m ∧ ∃ a, findKey s'.snaps key = some a ∧ a.kind = .active ∧ a.labels = labels ∧
+      a.id ∉ s'.mounts ∧ committedOf s'.snaps = committedOf s.snaps) ∨
+  -- any other error: no new committed snapshot
+  (∃ e, r = .err e ∧ e ≠ .exists ∧ committedOf s'.snaps = committedOf s.snaps)
+
+private theorem prepare_outcomes_aux (s : State) (hinv : Inv s) (hopen : s.closed = false) (orc : Oracle)
+    (key parent target : String) (labels : Labels)
+    (ht : lget labels targetLabel = some target)
+    (hne : target ≠ key)
+    (hT : ∀ t, findKey s.snaps target = some t → t.kind = .committed) :
+    PrepareOutcome s (runOp s orc (.prepare key parent labels)).1 (runOp s orc (.prepare key parent labels)).2
+      key target labels := by
+  have hc := createPlan_stepsOk hinv orc .active key parent labels
+  simp only [runOp, plan, hopen, Bool.false_eq_true, if_false]
+  unfold preparePlan
+  split
+  · -- createSnapshot failed
+    rename_i st1 e heq
+    obtain ⟨h1, _⟩ := createPlan_err heq
+    by_cases he : e = .exists
+    · subst he
+      exact Or.inr (Or.inl ⟨rfl, createPlan_err_exists heq, h1⟩)
+    · exact Or.inr (Or.inr (Or.inr ⟨e, rfl, he, by rw [h1]⟩))
+  · rename_i st1 sn pids heq
+    rw [heq] at hc
+    obtain ⟨ps, hchk, _, _, _, hsn, hst⟩ := createPlan_ok heq
+    have hinv1 : Inv (applySteps s st1) := inv_steps hinv hc
+    have hid : sn.id = s.seq + 1 := by rw [hsn]
+    have hkey : sn.key = key := by rw [hsn]
+    have hkind : sn.kind = .active := by rw [hsn]
+    have hlab : sn.labels = labels := by rw [hsn]
+    have hmem : sn ∈ (applySteps s st1).snaps := by rw [hst]; exact mem_insertSnap.mpr (Or.inl rfl)
+    have hfk : findKey (applySteps s st1).snaps key = some sn := by rw [← hkey]; exact hinv1.findKey_of_mem hmem
+    have hsnaps1 : (applySteps s st1).snaps = insertSnap sn s.snaps := by rw [hst]; rfl
+    have hmounts1 : (applySteps s st1).mounts = s.mounts := by rw [hst]; rfl
+    have hnm : sn.id ∉ s.mounts := fun hm => by have := hinv.mountBound _ hm; omega
+    have hcomm1 : committedOf (applySteps s st1).snaps = committedOf s.snaps := by
+      rw [hsnaps1]; exact committedOf_insert (by rw [hkind]; simp)
+    simp only [ht]
+    split
+    · -- backend Mount succeeded
+      rename_i hmo
+      split
+      · -- target = "" : CommitActive fails with a bolt error
+        refine Or.inr (Or.inr (Or.inr ⟨.other, rfl, by simp, ?_⟩))
+        simp only [applySteps_append, applySteps_cons, applySteps_nil, applyStep, if_true]
+        exact hcomm1
+      · rename_i htne
+        split
+        · -- the target exists already
+          rename_i hhas
+          obtain ⟨t, hft⟩ := hasKey_true.mp hhas
+          have hft' : findKey s.snaps target = some t := by
+            rw [hsnaps1, findKey_insertSnap_ne (by rw [hkey]; exact hne)] at hft; exact hft
+          refine Or.inl ⟨rfl, t, ?_, hT t hft', ?_⟩
+          · simp only [applySteps_append, applySteps_cons, applySteps_nil, applyStep, if_true]
+            exact hft
+          · intro hno
+            rw [hasKey_false] at hno
+            exact absurd (findKey_some hft').2 (hno t (findKey_some hft').1)
+        · -- internal commit as the target
+          rename_i hhas
+          have hhas' : hasKey (applySteps s st1).snaps target = false := by simpa using hhas
+          let t : Snap := { sn with key := target, kind := .committed, labels := lset labels remoteLabel remoteVal }
+          have hfinal : (applySteps s (st1 ++ [Step.fsMount sn.id labels true, Step.marker "prepare.mounted"] ++
+              [Step.marker "commit.beforetx", Step.txCommitActive key target (lset labels remoteLabel remoteVal),
+               Step.marker "prepare.targetcommitted"])) =
+              { applySteps s st1 with mounts := sn.id :: s.mounts,
+                                      snaps := insertSnap t (removeKey (applySteps s st1).snaps key) } := by
+            simp only [applySteps_append, applySteps_cons, applySteps_nil, applyStep, if_true, commitActive, hfk, hmounts1]
+            rfl
+          have hok : StepsOk s (st1 ++ [Step.fsMount sn.id labels true, Step.marker "prepare.mounted"] ++
+              [Step.marker "commit.beforetx", Step.txCommitActive key target (lset labels remoteLabel remoteVal),
+               Step.marker "prepare.targetcommitted"]) := by
+            have := preparePlan_stepsOk hinv orc key parent labels
+            unfold preparePlan at this
+            rw [heq] at this
+            simp only [ht] at this
+            rw [if_pos hmo, if_neg htne, if_neg hhas] at this
+            exact this
+          have hinv' := inv_steps hinv hok
+          rw [hfinal] at hinv'
+          rw [hfinal]
+          have htmem : t ∈ insertSnap t (removeKey (applySteps s st1).snaps key) := mem_insertSnap.mpr (Or.inl rfl)
+          refine Or.inl ⟨rfl, t, hinv'.findKey_of_mem htmem, rfl, ?_⟩
+          intro _
+          refine ⟨rfl, isRemote_lset _ _, ?_, ?_, ?_⟩
+          · show (sn.id :: s.mounts).count sn.id = 1
+            rw [List.count_cons_self, List.count_eq_zero.mpr hnm]
+          · show Dir.id sn.id ∈ (applySteps s st1).dirs
+            rw [hst, hid]; simp [created]
+          · rw [hasKey_false]
+            intro a ha
+            rcases mem_insertSnap.mp ha with rfl | ha
+            · exact hne
+            · exact (mem_removeKey.mp ha).2
+    · -- backend Mount failed: fall back to an ordinary snapshot
+      have hstate : applySteps s (st1 ++ Step.fsMount sn.id labels false ::
+          (mountsPlan (applySteps s st1) orc sn pids parent).1) = applySteps s st1 := by
+        rw [applySteps_append, applySteps_cons]
+        show applySteps (applySteps s st1) _ = _
+        exact mountsPlan_state _ _ _ _ _
+      simp only [hstate]
+      rcases mountsPlan_res_cases (applySteps s st1) orc sn pids parent with ⟨m, hr⟩ | hr
+      · rw [hr]
+        refine Or.inr (Or.inr (Or.inl ⟨m, rfl, sn, hfk, hkind, hlab, ?_, hcomm1⟩))
+        rw [hmounts1]; exact hnm
+      · rw [hr]
+        exact Or.inr (Or.inr (Or.inr ⟨.unavailable, rfl, by simp, hcomm1⟩))
+
+
+/-- the target label does not name an uncommitted snapshot (nor the key being prepared) -/
+def TargetNotUncommitted (s : State) (key target : String) : Prop :=
+  target ≠ key ∧ ∀ t, findKey s.snaps target = some t → t.kind = .committed
+
+/-- Prepare with a target label, after ANY history and for ANY backend outcomes: it reports
+AlreadyExists with the target committed — and, if this very call created it, labelled remote (the
+caller's labels plus the remote label), with exactly one live backend mount on its existing
+directory and the active key consumed — or AlreadyExists because the key exists (nothing changed),
+or it falls back to an ordinary active snapshot with exactly the caller's labels and no backend
+mount, or it fails leaving no new committed snapshot.
+PARTIAL: needs `TargetNotUncommitted`; see `PrepareTargetOutcomesFull` / `prepare_target_outcomes_full_false`. -/
+theorem prepare_target_outcomes_partial (cfg0 : Config) (hist : List (Op × Oracle)) (orc : Oracle)
+    (key parent target : String) (labels : Labels)
+    (ht : lget labels targetLabel = some target)
+    (hT : TargetNotUncommitted (runOps (init cfg0) hist) key target) :
+    PrepareOutcome (runOps (init cfg0) hist)
+      (runOp (runOps (init cfg0) hist) orc (.prepare key parent labels)).1
+      (runOp (runOps (init cfg0) hist) orc (.prepare key parent labels)).2 key target labels := by
+  have hinv := inv_runOps (inv_init cfg0) hist
+  generalize runOps (init cfg0) hist = s at hinv hT ⊢
+  by_cases hcl : s.closed = true
+  · -- the store is closed: the call fails without touching anything
+    have : plan s orc (.prepare key parent labels) = ([], .err .other) := by simp [plan, hcl]
+    simp only [runOp, this, applySteps_nil]
+    exact Or.inr (Or.inr (Or.inr ⟨.other, rfl, by simp, rfl⟩))
+  · exact prepare_outcomes_aux s hinv (by simpa using hcl) orc key parent target labels ht hT.1 hT.2
+
+/-- the statement of C08 for Prepare without the extra hypothesis -/
+def PrepareTargetOutcomesFull : Prop :=
+  ∀ (cfg0 : Config) (hist : List (Op × Oracle)) (orc : Oracle) (key parent target : String) (labels : Labels),
+    lget labels targetLabel = some target →
+    PrepareOutcome (runOps (init cfg0) hist)
+      (runOp (runOps (init cfg0) hist) orc (.prepare key parent labels)).1
+      (runOp (runOps (init cfg0) hist) orc (.prepare key parent labels)).2 key target labels
+
+def okOracle : Oracle := ⟨fun _ => true, fun _ => true, fun _ => true⟩
+
+/-- The full statement is FALSE (known finding `prepare-exists-target-not-committed`, replayed on
+the implementation by scenario S4 of the harness): `Prepare("a1")` then `Prepare("k2", target "a1")`
+reports AlreadyExists although `a1` is an active snapshot. -/
+theorem prepare_target_outcomes_full_false : ¬ PrepareTargetOutcomesFull := by
+  intro h
+  have h1 := h {} [(.prepare "a1" "" [], okOracle)] okOracle "k2" "" "a1" [(targetLabel, "a1")] (by decide)
+  have hr : (runOp (runOps (init {}) [(.prepare "a1" "" [], okOracle)]) okOracle
+      (.prepare "k2" "" [(targetLabel, "a1")])).2 = .err .exists := by decide
+  have hf : findKey (runOp (runOps (init {}) [(.prepare "a1" "" [], okOracle)]) okOracle
+      (.prepare "k2" "" [(targetLabel, "a1")])).1.snaps "a1" = some ⟨"a1", 1, .active, "", []⟩ := by decide
+  have hk : hasKey (runOps (init {}) [(.prepare "a1" "" [], okOracle)]).snaps "k2" = false := by decide
+  rcases h1 with ⟨_, t, h2, h3, _⟩ | ⟨_, h2, _⟩ | ⟨m, h2, _⟩ | ⟨e, h2, h3, _⟩
+  · rw [hf] at h2
+    cases h2
+    cases h3
+  · rw [hk] at h2; cases h2
+  · rw [hr] at h2; cases h2
+  · rw [hr] at h2
+    cases h2
+    exact h3 rfl
+
+/-- After Cleanup the snapshot directories on disk are exactly those of live snapshots
+(histories whose restarts restore; the model has no RemoveAll failures). -/
+theorem cleanup_exact (cfg0 : Config) (hist : List (Op × Oracle)) (hro : RestoreOn hist) (orc : Oracle)
+    (order : List Dir) (hopen : (runOps (init cfg0) hist).closed = false) :
+    (runOp (runOps (init cfg0) hist) orc (.cleanup order)).2 = .ok ∧
+    ∀ d, d ∈ (runOp (runOps (init cfg0) hist) orc (.cleanup order)).1.dirs ↔
+      ∃ a ∈ (runOp (runOps (init cfg0) hist) orc (.cleanup order)).1.snaps, d = Dir.id a.id := by
+  have hq := qdirs_runOps (inv_init cfg0) (qdirs_init cfg0) hist hro
+  generalize runOps (init cfg0) hist = s at hq hopen ⊢
+  simp only [runOp, plan, hopen, Bool.false_eq_true, if_false, cleanupPlan]
+  obtain ⟨c1, _, _, _, _, c6, _⟩ := cleanupSteps_state orc (arrange order (s.dirs.filter (fun d => !liveDir s.snaps d))) s
+  refine ⟨trivial, ?_⟩
+  intro d
+  rw [c6, c1, mem_arrange]
+  constructor
+  · rintro ⟨hd, hnot⟩
+    have hl : liveDir s.snaps d = true := by
+      cases hld : liveDir s.snaps d with
+      | true => rfl
+      | false => exact absurd (List.mem_filter.mpr ⟨hd, by simp [hld]⟩) hnot
+    cases d with
+    | temp t => simp [liveDir] at hl
+    | id n =>
+      simp only [liveDir, List.any_eq_true, beq_iff_eq] at hl
+      obtain ⟨a, ha, rfl⟩ := hl
+      exact ⟨a, ha, rfl⟩
+  · rintro ⟨a, ha, rfl⟩
+    have hd : Dir.id a.id ∈ s.dirs := by
+      rcases hq a ha with h | ⟨_, h⟩
+      · exact h
+      · rw [hopen] at h; cases h
+    refine ⟨hd, ?_⟩
+    intro hm
+    have := (List.mem_filter.mp hm).2
+    simp only [liveDir, Bool.not_eq_eq_eq_not, Bool.not_true, List.any_eq_false, beq_iff_eq] at this
+    exact this a ha rfl
+
+/-- The remote label appears only through the internal commit of a Prepare naming that target,
+on a snapshot that carries a live backend mount: for every step of every call that does not set
+the label itself, a snapshot that is remote after the step either was remote before it, or the step
+is that commit. -/
+theorem remote_label_only_via_prepare (cfg0 : Config) (hist : List (Op × Oracle)) (orc : Oracle) (op : Op)
+    (hop : CleanOp op) (pre post : List Step) (st : Step)
+    (hsplit : (plan (runOps (init cfg0) hist) orc op).1 = pre ++ st :: post)
+    (a : Snap) (ha : a ∈ (applyStep (applySteps (runOps (init cfg0) hist) pre) st).snaps)
+    (hr : isRemote a.labels = true) :
+    (∃ b ∈ (applySteps (runOps (init cfg0) hist) pre).snaps, b.key = a.key ∧ b.id = a.id ∧ isRemote b.labels = true) ∨
+    (∃ key lb, st = .txCommitActive key a.key lb ∧ targetOf op = some a.key ∧ a.kind = .committed ∧
+       a.id ∈ (applySteps (runOps (init cfg0) hist) pre).mounts) := by
+  have hinv0 := inv_runOps (inv_init cfg0) hist
+  generalize runOps (init cfg0) hist = s at hinv0 hsplit ha ⊢
+  have hok := plan_stepsOk hinv0 orc op
+  have hrs := plan_remoteSafe hinv0 orc op hop
+  rw [hsplit] at hok hrs
+  have hinv : Inv (applySteps s pre) := inv_steps hinv0 (stepsOk_append.mp hok).1
+  have hok1 := stepsOk_split hok
+  have hrs1 := allSteps_split hrs
+  generalize applySteps s pre = s' at hinv hok1 hrs1 ha ⊢
+  have same : a ∈ s'.snaps →
+      (∃ b ∈ s'.snaps, b.key = a.key ∧ b.id = a.id ∧ isRemote b.labels = true) ∨
+      (∃ key lb, st = .txCommitActive key a.key lb ∧ targetOf op = some a.key ∧ a.kind = .committed ∧
+         a.id ∈ s'.mounts) := fun h => Or.inl ⟨a, h, rfl, rfl, hr⟩
+  cases st with
+  | txCreate sn =>
+    rcases mem_insertSnap.mp ha with rfl | ha
+    · have : isRemote a.labels = false := hrs1
+      rw [this] at hr; cases hr
+    · exact same ha
+  | txCommitActive key name lb =>
+    obtain ⟨_, _, sn, hf, _⟩ := hok1
+    simp only [applyStep, commitActive, hf] at ha
+    rcases mem_insertSnap.mp ha with rfl | ha
+    · right
+      obtain ⟨htgt, sn', hf', hm⟩ := hrs1 hr
+      rw [hf] at hf'; cases hf'
+      exact ⟨key, lb, rfl, htgt, rfl, hm⟩
+    · exact same (mem_removeKey.mp ha).1
+  | txRemove key => exact same (mem_removeKey.mp ha).1
+  | txUpdate key lb =>
+    obtain ⟨y, hy, rfl⟩ := mem_updateLabels.mp ha
+    left
+    refine ⟨y, hy, ?_, ?_, ?_⟩
+    · split <;> rfl
+    · split <;> rfl
+    · revert hr
+      split
+      · rename_i hk
+        have hk' : y.key = key := by simpa using hk
+        intro hr
+        have := hrs1 y (by rw [← hk']; exact hinv.findKey_of_mem hy)
+        rw [← this]; exact hr
+      · exact id
+  | fsMount id l ok => cases ok <;> exact same ha
+  | fsUnmount d ok => cases d <;> exact same ha
+  | mkdirId id => rw [(mkdirId_facts s' id).2.2.2.1] at ha; exact same ha
+  | mkTemp t => exact same ha
+  | rename t id => exact same ha
+  | rmdir d => exact same ha
+  | fsCheck id ok => exact same ha
+  | dbClose => exact same ha
+  | crash cfg => exact same ha
+  | opened => exact same ha
+  | marker m => exact same ha
+
+/-- ... hence, in histories whose calls do not set the label themselves, only committed snapshots
+are ever remote — in every state a crash can expose. -/
+theorem remote_snapshots_are_committed (cfg0 : Config) (s : State) (h : CleanReachable cfg0 s) :
+    ∀ a ∈ s.snaps, isRemote a.labels = true → a.kind = .committed :=
+  (cinv_reachable h).remoteCommitted
+
+/-! ### non-vacuity: the hypotheses are met by concrete non-trivial histories -/
+
+/-- layer c1 prepared remotely, a container on top of it -/
+def demoHist : List (Op × Oracle) :=
+  [(.prepare "k1" "" [(targetLabel, "c1")], okOracle), (.prepare "k2" "c1" [], okOracle)]
+
+example : RestoreOn demoHist := by
+  intro p hp cfg h
+  simp [demoHist] at hp
+  rcases hp with rfl | rfl <;> cases h
+example : CleanHist demoHist := by
+  intro p hp
+  simp [demoHist] at hp
+  rcases hp with rfl | rfl <;> (show isRemote _ = false; decide)
+example : (runOps (init {}) demoHist).closed = false := by decide
+example : TargetNotUncommitted (runOps (init {}) demoHist) "k3" "c3" := by
+  refine ⟨by decide, ?_⟩
+  intro t h
+  have : findKey (runOps (init {}) demoHist).snaps "c3" = none := by decide
+  rw [this] at h; cases h
+-- the created-by-this-call outcome really occurs: remote, mounted once, key consumed
+example : (runOp (runOps (init {}) demoHist) okOracle (.prepare "k3" "c1" [(targetLabel, "c3")])).2 = .err .exists := by decide
+example : (runOp (runOps (init {}) demoHist) okOracle (.prepare "k3" "c1" [(targetLabel, "c3")])).1.mounts = [3, 1] := by decide
+-- and the fallback outcome when the backend Mount fails
+example : (runOp (runOps (init {}) demoHist) ⟨fun _ => false, fun _ => true, fun _ => true⟩
+    (.prepare "k3" "c1" [(targetLabel, "c3")])).2 = .mounts (.overlay (some 3) [1]) := by decide
+-- a failing Check of the remote parent makes Mounts unavailable
+example : (runOp (runOps (init {}) demoHist) ⟨fun _ => true, fun _ => false, fun _ => true⟩ (.mounts "k2")).2
+    = .err .unavailable := by decide
+example : (runOp (runOps (init {}) demoHist) okOracle (.mounts "k2")).2 = .mounts (.overlay (some 2) [1]) := by decide
+-- an Unmount step exists in a plan (sync removal), so the trace theorems are not vacuous
+example : (plan (runOps (init {}) demoHist) okOracle (.remove "k2" [])).1 =
+    [.txRemove "k2", .marker "remove.txcommitted", .fsUnmount (.id 2) true, .marker "cleanupdir.unmounted",
+     .rmdir (.id 2), .marker "cleanupdir.removed"] := by decide
+
 end SV.Props.C08
+
